@@ -257,6 +257,34 @@ def check_builders_lazy(rep, rid, crates):
         rep.bad(rid, 'sites', 'expected at least 10 builder constructions with a make-task closure, found %d' % n)
 
 
+# where an adaptor built on FuturesUnordered may be used: (function) -> why
+WAKER_RETAINING_OK = {
+    'crux_core::command::builder::StreamBuilder::then_stream': 'the documented concurrency of chained streams needs it',
+}
+
+
+def check_waker_retaining_adaptors(rep, rid, core):
+    """flatten_unordered, buffer_unordered, select_all and friends poll their inner futures with wakers of their own, each holding a clone
+    of the task's waker for as long as the adaptor lives.  The executor evicts a task that can never be woken again by counting the
+    clones of the waker it handed out (C07): a task parked behind such an adaptor on a request the shell dropped is never evicted, its
+    future and everything it captured are never released, and its command never becomes done.  Who-may-call: in the command runtime
+    these adaptors appear only where tabled."""
+    n = 0
+    for f in core.built:
+        if f.j.get('exp') or '::testing' in f.npath or '::command::' not in f.npath:
+            continue
+        for bb, t in f.calls():
+            if norm(t.get('ctrait') or '').startswith('futures_util::') and last_seg(t.get('callee') or '') in CONCURRENT:
+                n += 1
+                host = core.host_root(f)
+                key = '%s|%s' % (host, last_seg(t['callee']))
+                rep.expect(rid, host in WAKER_RETAINING_OK, key, 'tabled: ' + WAKER_RETAINING_OK.get(host, ''),
+                           '%s uses %s at %s: the adaptor keeps clones of the task\'s waker, so a task waiting there on a request that was dropped '
+                           'is never evicted and never released' % (host, last_seg(t['callee']), f.where(bb)))
+    if n < 1:
+        rep.bad(rid, 'sites', 'the tabled use of flatten_unordered in StreamBuilder::then_stream was not found')
+
+
 def fold_of_and(f):
     """`iter.into_iter().fold(<fresh command>, Command::and)`: every item is and-ed onto a fresh command (Command::and hosts its right
     operand on its left one and returns the left one).  Returns the fold call block or None"""
